@@ -678,6 +678,10 @@ void Parser::ParserImpl::loadComponent(const ComponentPtr &component, const XmlN
                     // Set all attributes that had an old CellML namespace with CellML 2.0 namespace.
                     for (const auto &cellmlAttribute : cellmlAttributes) {
                         cellmlAttribute->setNamespacePrefix("cellml");
+                        // The units of a number are units references too: liter -> litre, meter -> metre.
+                        if (cellmlAttribute->name() == "units") {
+                            cellmlAttribute->setValue(convertNonSiUnits(cellmlAttribute->value()));
+                        }
                     }
                 }
             }
